@@ -440,18 +440,22 @@ struct Client {
     h2: Option<H2Client>,
     /// the h2 connection was already closed by sozu when the SoftStop was about to be sent
     dead_before_stop: bool,
+    /// `h2park`: (listener knob h2_graceful_shutdown_deadline_seconds, None = unset; delay in ms
+    /// after the SoftStop at which the backend answers)
+    park: Option<(Option<u32>, u64)>,
+    stop_at: Option<Instant>,
 }
 
 impl Client {
     /// has a request (or stream) under way
     fn inflight(&self) -> bool {
-        matches!(self.phase.as_str(), "head" | "sent" | "midbody" | "tcpmid" | "buftail" | "h2tail" | "h2stoptail")
+        self.park.is_some() || matches!(self.phase.as_str(), "head" | "sent" | "midbody" | "tcpmid" | "buftail" | "h2tail" | "h2stoptail")
     }
     /// ... that the worker waits for before acknowledging a SoftStop: an HTTP
     /// request whose head was received in full (`Mux::shutting_down` only
     /// looks at linked streams; `TcpSession::shutting_down` is always true)
     fn holds_stop(&self) -> bool {
-        !self.dead_before_stop && matches!(self.phase.as_str(), "sent" | "midbody" | "buftail" | "h2tail" | "h2stoptail")
+        !self.dead_before_stop && (self.park.is_some() || matches!(self.phase.as_str(), "sent" | "midbody" | "buftail" | "h2tail" | "h2stoptail"))
     }
 }
 
@@ -574,7 +578,35 @@ fn run_with_old(sc: &Scenario, run: &mut Run, w1: &mut HW) -> Result<(), String>
             b.read_until_len(17, T);
             b.write_all(&body_of(i)[..BODY / 2], T).map_err(|e| e.to_string())?;
             c.read_until_len(BODY / 2, T);
-            clients.push(Client { phase: phase.clone(), conn: Some(c), back: Some(b), backend, idx: i, done: false, tcp: true, writer: None, h2: None, dead_before_stop: false });
+            clients.push(Client { phase: phase.clone(), conn: Some(c), back: Some(b), backend, idx: i, done: false, tcp: true, writer: None, h2: None, dead_before_stop: false, park: None, stop_at: None });
+            continue;
+        }
+        if let Some(rest) = phase.strip_prefix("h2park-") {
+            // an H2 stream parked on the backend across the SoftStop, on an HTTPS listener with a
+            // chosen h2_graceful_shutdown_deadline_seconds
+            let (k, dms) = rest.split_once('-').ok_or("bad h2park phase")?;
+            let knob: Option<u32> = if k == "u" { None } else { Some(k.parse().map_err(|_| "bad knob")?) };
+            let dms: u64 = dms.parse().map_err(|_| "bad delay")?;
+            let rsv = reserve(false, false)?;
+            let a = rsv.addr;
+            let mut lc = ListenerBuilder::new_https(a.into()).to_tls(None).map_err(|e| e.to_string())?;
+            lc.h2_graceful_shutdown_deadline_seconds = knob;
+            w1.ok(RequestType::AddHttpsListener(lc))?;
+            w1.ok(RequestType::ActivateListener(ActivateListener { address: a.into(), proxy: ListenerType::Https.into(), from_scm: false }))?;
+            reserved.push(rsv);
+            declared[1].push(a);
+            let path = format!("/h2park{i}");
+            w1.ok(RequestType::AddHttpsFrontend(RequestHttpFrontend { cluster_id: Some(cid.clone()), address: a.into(), hostname: "localhost".into(), path: PathRule::prefix(path.clone()), position: RulePosition::Tree.into(), ..Default::default() }))?;
+            w1.ok(RequestType::AddCertificate(AddCertificate {
+                address: a.into(),
+                certificate: CertificateAndKey { certificate: asset("local-certificate.pem").map_err(|e| e.to_string())?, key: asset("local-key.pem").map_err(|e| e.to_string())?, certificate_chain: vec![], versions: vec![], names: vec![] },
+                expired_at: None,
+            }))?;
+            w1.ok(RequestType::AddBackend(AddBackend { cluster_id: cid.clone(), backend_id: format!("{cid}-0"), address: backend.addr.into(), load_balancing_parameters: Some(LoadBalancingParams::default()), sticky_id: None, backup: None }))?;
+            let h2 = H2Client::get(a, "localhost", &path)?;
+            let mut b = backend.accept(T).map_err(|e| format!("h2park backend accept: {e}"))?;
+            b.read_until(b"\r\n\r\n", T);
+            clients.push(Client { phase: phase.clone(), conn: None, back: Some(b), backend, idx: i, done: false, tcp: false, writer: None, h2: Some(h2), dead_before_stop: false, park: Some((knob, dms)), stop_at: None });
             continue;
         }
         if phase == "h2tail" || phase == "h2stoptail" {
@@ -629,7 +661,7 @@ fn run_with_old(sc: &Scenario, run: &mut Run, w1: &mut HW) -> Result<(), String>
                 return Err(format!("h2tail set-up: {} bytes before the window closed", h2.data.len()));
             }
             thread::sleep(Duration::from_millis(if phase == "h2stoptail" { 300 } else { 30 }));
-            clients.push(Client { phase: phase.clone(), conn: None, back: keep_back, backend, idx: i, done: false, tcp: false, writer: None, h2: Some(h2), dead_before_stop: false });
+            clients.push(Client { phase: phase.clone(), conn: None, back: keep_back, backend, idx: i, done: false, tcp: false, writer: None, h2: Some(h2), dead_before_stop: false, park: None, stop_at: None });
             continue;
         }
         let host = format!("c{i}.local");
@@ -682,7 +714,7 @@ fn run_with_old(sc: &Scenario, run: &mut Run, w1: &mut HW) -> Result<(), String>
             }
             _ => return Err(format!("unknown phase {phase}")),
         }
-        clients.push(Client { phase: phase.clone(), conn: Some(c), back, backend, idx: i, done: false, tcp: false, writer, h2: None, dead_before_stop: false });
+        clients.push(Client { phase: phase.clone(), conn: Some(c), back, backend, idx: i, done: false, tcp: false, writer, h2: None, dead_before_stop: false, park: None, stop_at: None });
     }
 
     // ---- connector hammering the addresses during the hand-over
@@ -799,7 +831,7 @@ fn run_with_old(sc: &Scenario, run: &mut Run, w1: &mut HW) -> Result<(), String>
         // ---- some in-flight requests finish before the stop
         let mut finished = 0;
         let bt_early = std::env::var("HO_BUFTAIL_EARLY").is_ok();
-        for c in clients.iter_mut().filter(|c| c.inflight() && c.phase != "h2stoptail" && (c.phase != "h2tail" || bt_early) && (c.phase != "buftail" || bt_early)) {
+        for c in clients.iter_mut().filter(|c| c.inflight() && c.park.is_none() && c.phase != "h2stoptail" && (c.phase != "h2tail" || bt_early) && (c.phase != "buftail" || bt_early)) {
             if finished >= sc.early && !(bt_early && (c.phase == "buftail" || c.phase == "h2tail")) {
                 break;
             }
@@ -828,6 +860,10 @@ fn run_with_old(sc: &Scenario, run: &mut Run, w1: &mut HW) -> Result<(), String>
             observed.push("none exited=0".into());
         }
         let stop_id = w1.send(RequestType::SoftStop(SoftStop {}))?;
+        let stop_at = Instant::now();
+        for c in clients.iter_mut() {
+            c.stop_at = Some(stop_at);
+        }
         let stop_no: u64 = stop_id.rsplit('-').next().and_then(|x| x.parse().ok()).unwrap_or(0);
         let observe = |w1: &mut HW, wait: Duration| -> String {
             let until = Instant::now() + wait;
@@ -897,7 +933,8 @@ fn run_with_old(sc: &Scenario, run: &mut Run, w1: &mut HW) -> Result<(), String>
             }
             c.done = true;
         }
-        let pending: Vec<usize> = clients.iter().enumerate().filter(|(_, c)| c.holds_stop() && !c.done).map(|(i, _)| i).collect();
+        let mut pending: Vec<usize> = clients.iter().enumerate().filter(|(_, c)| c.holds_stop() && !c.done).map(|(i, _)| i).collect();
+        pending.sort_by_key(|i| clients[*i].park.is_some());
         for (n, ci) in pending.iter().enumerate() {
             if w1.finals(&stop_id) > 0 {
                 run.fail("softstop-ack-before-drain", format!("final answer to SoftStop while {} request(s) were still in flight", pending.len() - n));
@@ -1028,6 +1065,47 @@ fn finish_client(c: &mut Client, run: &mut Run) {
     let i = c.idx;
     let body = body_of(i);
     let res = (|| -> Result<(), String> {
+        if let (Some((knob, dms)), Some(h2)) = (c.park, c.h2.as_mut()) {
+            let stop_at = c.stop_at.ok_or("parked stream finished before the stop")?;
+            // GOAWAY promptly after the stop
+            h2.pump(Duration::from_millis(400), |c| c.goaway > 0);
+            let goaway_early = h2.goaway > 0;
+            let answer_at = stop_at + Duration::from_millis(dms);
+            while Instant::now() < answer_at && !h2.closed {
+                h2.pump(Duration::from_millis(50), |_| false);
+            }
+            let closed_before_answer = h2.closed;
+            // what counts is when the backend really answers (other clients of the scenario may
+            // have delayed us)
+            let dms = stop_at.elapsed().as_millis() as u64;
+            if let Some(b) = c.back.as_mut() {
+                let _ = b.write_all(b"HTTP/1.1 200 OK\r\nContent-Length: 6\r\n\r\nparked", Duration::from_millis(500));
+            }
+            h2.pump(Duration::from_millis(1500), |c| c.end_stream || c.rst.is_some());
+            let complete = h2.end_stream && h2.data == b"parked";
+            let deadline_ms: Option<u64> = match knob {
+                None => Some(5000),
+                Some(0) => None,
+                Some(s) => Some(u64::from(s) * 1000),
+            };
+            if let Some(d) = deadline_ms {
+                if dms + 350 > d && dms < d + 350 {
+                    return Ok(()); // too close to the deadline to call
+                }
+            }
+            let must_complete = deadline_ms.map(|d| dms < d).unwrap_or(true);
+            if !goaway_early {
+                return Err(format!("no GOAWAY within 400 ms of the SoftStop (knob {knob:?})"));
+            }
+            return match (must_complete, complete) {
+                (true, true) | (false, false) => Ok(()),
+                (true, false) => Err(format!(
+                    "CUT: deadline knob {knob:?} (= {deadline_ms:?} ms), backend answered {dms} ms after the stop: client got {} bytes, END_STREAM={}, RST_STREAM={:?}, connection closed before the answer={closed_before_answer}",
+                    h2.data.len(), h2.end_stream, h2.rst
+                )),
+                (false, true) => Err(format!("NOT-ENFORCED: deadline knob {knob:?} (= {deadline_ms:?} ms) but a stream answered {dms} ms after the stop still completed")),
+            };
+        }
         if let Some(h2) = c.h2.as_mut() {
             // the client opens its windows: the rest of the response and END_STREAM must follow
             let mut wu = h2_frame(8, 0, 0, &(H2_BODY as u32).to_be_bytes());
@@ -1121,7 +1199,15 @@ fn finish_client(c: &mut Client, run: &mut Run) {
     })();
     c.done = true;
     if let Err(e) = res {
-        let class = if c.tcp {
+        let class = if c.park.is_some() {
+            if e.starts_with("NOT-ENFORCED") {
+                "h2-graceful-deadline-not-enforced".to_string()
+            } else if e.starts_with("CUT") {
+                "h2-stream-cut-before-graceful-deadline".to_string()
+            } else {
+                "h2-goaway-missing-after-softstop".to_string()
+            }
+        } else if c.tcp {
             "inflight-request-cut:tcp-stream".to_string()
         } else if c.h2.is_some() && c.dead_before_stop {
             "inflight-request-cut:buffered-tail".to_string()
@@ -1172,7 +1258,21 @@ impl Area for Handover {
         if self.family.as_deref() == Some("slow-reader") {
             return vec![s("handover L=1,0,0,0 v6=0 clients=buftail early=0 mode=stop hammer=0")];
         }
+        if self.family.as_deref() == Some("h2-deadline") {
+            return vec![
+                s("handover L=1,0,0,0 v6=0 clients=h2park-0-6500 early=0 mode=stop hammer=0"),
+                s("handover L=1,0,0,0 v6=0 clients=h2park-u-5900 early=0 mode=stop hammer=0"),
+                s("handover L=1,0,0,0 v6=0 clients=h2park-u-4000 early=0 mode=handover hammer=0"),
+                s("handover L=1,0,0,0 v6=0 clients=h2park-2-1300 early=0 mode=stop hammer=0"),
+                s("handover L=1,0,0,0 v6=0 clients=h2park-2-2800 early=0 mode=handover hammer=0"),
+                s("handover L=1,0,0,0 v6=0 clients=h2park-1-400 early=0 mode=stop hammer=0"),
+                s("handover L=1,0,0,0 v6=0 clients=idle+h2park-1-1800 early=0 mode=stop hammer=0"),
+            ];
+        }
         vec![
+            // the slow one first: it shares its worker thread of the harness with few other cases
+            s("handover L=1,0,0,0 v6=0 clients=h2park-0-6500 early=0 mode=stop hammer=0"),
+            s("handover L=1,0,0,0 v6=0 clients=sent+h2park-1-400 early=0 mode=handover hammer=0"),
             s("handover L=1,0,0,0 v6=0 clients=h2stoptail early=0 mode=stop hammer=0"),
             s("handover L=2,0,1,0 v6=50 clients=sent+h2stoptail early=0 mode=handover hammer=1"),
             s("handover L=1,0,0,0 v6=0 clients=h2tail early=0 mode=stop hammer=0"),
@@ -1207,8 +1307,22 @@ impl Area for Handover {
             clients.truncate(1);
             clients.retain(|c| c != "tcpmid" && c != "head");
             clients.push("buftail".into());
+        } else if self.family.as_deref() == Some("h2-deadline") {
+            clients.truncate(1);
+            clients.retain(|c| c != "tcpmid" && c != "head");
+            clients.push(rng.pick(&["h2park-0-6500", "h2park-0-2500", "h2park-1-400", "h2park-1-1800", "h2park-2-1300", "h2park-2-2800", "h2park-u-4000", "h2park-u-5900", "h2park-u-500"]).to_string());
         } else if rng.chance(1, 6) {
             clients.push(if rng.chance(3, 4) { "h2stoptail" } else { "h2tail" }.into());
+        } else if rng.chance(1, 8) {
+            // quick-tier friendly: short deadlines only (the 5 s / no-deadline cases are in the corpus
+            // and in the `h2-deadline` family)
+            clients.push(rng.pick(&["h2park-1-400", "h2park-1-1800", "h2park-2-1300", "h2park-u-500"]).to_string());
+        }
+        // a stream that the graceful deadline will cut ends at the deadline, not when we finish it:
+        // keep it the only request that holds the stop, so that the acknowledgement order stays decidable
+        let cut_phase = |c: &String| ["h2park-1-1800", "h2park-2-2800", "h2park-u-5900"].contains(&c.as_str());
+        if clients.iter().any(cut_phase) {
+            clients.retain(|c| cut_phase(c) || c == "idle" || c == "connected");
         }
         let inflight = clients.iter().filter(|c| ["head", "sent", "midbody"].contains(&c.as_str())).count();
         let early = rng.below(inflight as u64 + 1) as usize;
@@ -1249,7 +1363,7 @@ impl Area for Handover {
             for c in &sc.clients {
                 run.r.tags.push(format!("client:{c}"));
             }
-            if n >= 2 || sc.clients.iter().any(|c| ["head", "sent", "midbody", "tcpmid", "buftail", "h2tail", "h2stoptail"].contains(&c.as_str())) {
+            if n >= 2 || sc.clients.iter().any(|c| c.starts_with("h2park") || ["head", "sent", "midbody", "tcpmid", "buftail", "h2tail", "h2stoptail"].contains(&c.as_str())) {
                 run.r.nontrivial = true;
             }
             if let Err(e) = run_scenario(&sc, &mut run) {
